@@ -37,6 +37,11 @@ func envVars() map[string]any {
 
 	for _, s := range os.Environ() {
 		kv := strings.SplitN(s, "=", 2)
+		if len(kv) != 2 {
+			// not of the form NAME=value: no variable to offer
+			continue
+		}
+
 		vars[fmt.Sprintf("$env:%s", kv[0])] = kv[1]
 	}
 
